@@ -95,7 +95,7 @@ func zero(t types.Type) Val {
 		}
 		w, _, ok := bw(t)
 		if !ok {
-			panic("zero: basic " + t.String())
+			return nil // unsafe.Pointer, floats, complex: not modelled; only ever stored, never computed with
 		}
 		if w == 0 {
 			return tFalse
